@@ -300,7 +300,7 @@ example : Setup (flowCfg 4) (reno 2048) 1 [(1/5, ack 0 512 0), (0, ack 0 1024 0)
 /-- … and by a CUBIC sender with the constructor defaults of `TCPCubic()` -/
 example : Setup { kind := .cubic, mss := 512, size := 5120 } (TCPCubic.defaults : CCState ℚ) (1/5) [(3/10, ack 512 0 0)] := by
   refine ⟨?_, by norm_num, by decide, by decide, ⟨10, by decide⟩, ?_⟩
-  · refine ⟨?_, ?_, ?_, fun _ => ⟨?_, ?_⟩⟩ <;> simp [TCPCubic.defaults] <;> norm_num
+  · refine ⟨?_, ?_, ?_, fun _ => ⟨?_, ?_⟩⟩ <;> (simp [TCPCubic.defaults]; try norm_num)
   · simp only [ScriptOK, ack]
     norm_num
 
